@@ -6,3 +6,8 @@ import QlibcModel.Props.C14
 #print axioms Qlibc.Props.C14.enter_leave_model
 #print axioms Qlibc.Props.C14.enter_excluded
 #print axioms Qlibc.Props.C14.macro_skeleton_as_modelled
+#print axioms Qlibc.Props.C14.macro_tree_as_modelled
+#print axioms Qlibc.Props.C14.enter_returns_holding
+#print axioms Qlibc.Props.C14.leave_unlocks_once
+#print axioms Qlibc.Props.C14.macro_tree_shape
+#print axioms Qlibc.Props.C14.all_container_mutexes_recursive
